@@ -3,6 +3,7 @@ import ast
 from fractions import Fraction
 import itertools
 
+from ..resilient import run_nested as _run_nested
 from .. import nf, dims, bind
 from ..nf import Poly, Tup, Const, NONE
 from ..model import AnalysisError
@@ -250,11 +251,11 @@ def run(chk, repo, tier):
     # the bins of a density (normalised to the band integral) are what a unit change must preserve: the binning rules of C15
     from . import c15 as _c15
     from .common import Remap as _Remap
-    _c15.run(_Remap(chk, {'C15-e': 'C14-c', 'C15-b': 'C14-c'}), repo, tier)
+    _run_nested(_c15, _Remap(chk, {'C15-e': 'C14-c', 'C15-b': 'C14-c'}), repo, tier)
     # two spectra in different units are brought to one unit by the same conversions: which operand is converted, in which
     # unit the common grid is, and which unit the result is labelled with (the rules of spectrum arithmetic about units)
     from . import c13 as _c13
-    _c13.run(_Remap(chk, {'C13-f': 'C14-c', 'C13-c': 'C14-c', 'C13-d': 'C14-g'}), repo, tier)
+    _run_nested(_c13, _Remap(chk, {'C13-f': 'C14-c', 'C13-c': 'C14-c', 'C13-d': 'C14-g'}), repo, tier)
     fto_ = repo.func('radiometry.Spectrum.to')
     early = []
     for loop in [n for n in ast.walk(fto_.node) if isinstance(n, ast.For)]:
